@@ -59,7 +59,7 @@ fn cases(tier: Tier) -> &'static Vec<Case> {
     let cell = if !full(tier) { &Q } else { &T };
     cell.get_or_init(|| {
         let mut v = Vec::new();
-        let max_len = if full(tier) { 3 } else { 2 };
+        let max_len = if deep(tier) { 4 } else { 3 };
         let tails: Vec<(&str, Vec<u8>)> = vec![
             ("nothing", vec![]),
             ("request", get("/after")),
